@@ -231,6 +231,17 @@ func (s *Session) exec(c Call) (string, error) {
 			return "", err
 		}
 		return fmt.Sprint(n), nil
+	case "hwritestr":
+		file, ok := s.Handles[c.int(0)]
+		if !ok {
+			return "", errBadHandle
+		}
+		// code points 0..255 as one byte each would not survive string conversion: use Latin-1 safe bytes
+		n, err := file.WriteString(string(GenBytes(int(c.int(1)), c.int(2))))
+		if err != nil {
+			return "", err
+		}
+		return fmt.Sprint(n), nil
 	case "hsync":
 		file, ok := s.Handles[c.int(0)]
 		if !ok {
